@@ -1363,8 +1363,14 @@ impl World for OrdWorld {
             return Op::OSweep;
         }
         if self.model.len() > 50_000 && r.chance(1, 6) {
-            // clear of a very large arena, then refill
-            self.gen.fill_target = Some(Self::draw_fill_target(&self.cfg, r));
+            // clear of a very large arena, then refill: a small fill, or a second bulk build that
+            // outgrows the arena the clear left behind
+            if r.chance(1, 2) {
+                self.gen.fill_target = Some(Self::draw_fill_target(&self.cfg, r));
+            } else {
+                let n = (self.model.len() as i32).saturating_add(5000).min(self.cfg.universe);
+                self.gen.pending.push_back(Op::OBulk { n, pat: r.below(3) as u8 });
+            }
             return Op::OClear;
         }
         if self.gen.forced_clear_at == Some(self.gen.generated - 1) {
